@@ -219,6 +219,7 @@ pub struct Sim {
     /// exhaustive exploration: remaining (worker losses, cancels, extra workers) on this path
     pub x_budget: (u32, u32, u32),
     pub x_submit: u32,
+    pub x_submit_job: Option<u32>,
     /// generator profile: 0 basic, 1 prefill-heavy, 2 multi-node, 3 resources/variants/strict policies,
     /// 4 worker time limits and time requests (incl. variants with different time requests)
     pub profile: u64,
@@ -301,10 +302,11 @@ pub fn gen_rq(rng: &mut Rng, profile: u64) -> ResourceRequestVariants {
             0 => ResourceRequestVariants::new_simple(rq(0, vec![cpu(AllocationRequest::ForceCompact(ResourceAmount::new_units(2)))])),
             1 => ResourceRequestVariants::new_simple(rq(0, vec![cpu(AllocationRequest::Compact(ResourceAmount::new_units(1))), gpu(1)])),
             2 => ResourceRequestVariants::new_simple(rq(0, vec![cpu(AllocationRequest::All)])),
-            3 => ResourceRequestVariants::new(smallvec![
-                rq(0, vec![cpu(AllocationRequest::Compact(ResourceAmount::new_units(1))), gpu(1)]),
-                rq(0, vec![cpu(AllocationRequest::Compact(ResourceAmount::new_units(2)))]),
-            ]),
+            3 => {
+                let a = rq(0, vec![cpu(AllocationRequest::Compact(ResourceAmount::new_units(1))), gpu(1)]);
+                let b = rq(0, vec![cpu(AllocationRequest::Compact(ResourceAmount::new_units(2)))]);
+                if rng.chance(1, 2) { ResourceRequestVariants::new(smallvec![a, b]) } else { ResourceRequestVariants::new(smallvec![b, a]) }
+            }
             4 => ResourceRequestVariants::new_simple(rq(0, vec![cpu(AllocationRequest::Compact(ResourceAmount::new(1, 5000)))])),
             _ => match rng.below(4) {
                 // `all` of one resource together with an amount of another one (either order of resource ids)
@@ -354,6 +356,14 @@ pub fn gen_worker_resources(rng: &mut Rng, profile: u64) -> (ResourceDescriptor,
                 totals.push(10_000);
             }
             (ResourceDescriptor::new(items, Default::default()), totals)
+        }
+        3 if rng.chance(1, 4) => {
+            // a big worker: several tasks of a multi-variant request fit only when the variants are mixed
+            let items = vec![
+                ResourceDescriptorItem { name: "cpus".to_string(), kind: ResourceDescriptorKind::regular_sockets(2, 4) },
+                ResourceDescriptorItem::range("gpus", 0, 3),
+            ];
+            (ResourceDescriptor::new(items, Default::default()), vec![80_000, 40_000])
         }
         3 => {
             let sockets = rng.range(1, 2) as u32;
@@ -440,6 +450,7 @@ impl Sim {
             task_tl: Default::default(),
             x_budget: (1, 1, 1),
             x_submit: 0,
+            x_submit_job: None,
             prefill,
             panicked: None,
             log: vec![format!("profile {profile}")],
@@ -1128,7 +1139,8 @@ impl Sim {
     pub fn act_add_worker(&mut self) {
         let (desc, _totals) = gen_worker_resources(&mut self.rng, self.profile);
         let group = if self.profile == 2 {
-            if self.rng.chance(1, 2) { "ga" } else { "gb" }
+            // mostly one group, so that a multi-node task can be hosted again after a loss
+            if self.rng.chance(3, 4) { "ga" } else { "gb" }
         } else if self.rng.chance(1, 3) {
             if self.rng.chance(1, 2) { "ga" } else { "gb" }
         } else {
@@ -1812,9 +1824,14 @@ impl Sim {
     /// scenario 1: two 1-cpu workers, array job of 3 tasks, proactive filling reserve 0 / max 2
     /// scenario 2: two workers of one group, one 2-node task and one 1-cpu task
     /// scenario 3: two groups of two 1-cpu workers, two 1-cpu tasks; a 2-node task may arrive later
+    /// scenario 4: one worker with 8 cpus + 4 gpus, five tasks of a request with the variants [2 cpus | 1 cpu + 1 gpu]
+    ///             (4 fit through either variant alone, 6 when the variants are mixed)
+    /// scenario 5: one 1-cpu worker; job 1 = task A (assigned), open job 2 = task P (prefilled); A has ended on the worker
+    ///             and the worker started P from its backlog (update in flight); a 2-node task may be submitted into
+    ///             job 2, both jobs may be cancelled, a second worker may connect
     pub fn scenario(k: u32) -> Sim {
         use tako::resources::ResourceDescriptor;
-        let prefill = if k == 1 { (0, 2) } else { (1, 1) };
+        let prefill = if k == 1 || k == 5 { (0, 2) } else { (1, 1) };
         let mut s = Sim::build(0, false, prefill);
         s.profile = if k >= 2 { 2 } else { 0 };
         let mut add = |s: &mut Sim, cpus: u32, group: &str| {
@@ -1845,6 +1862,46 @@ impl Sim {
                     task_desc: task_desc(0, CrashLimit::default(), None),
                 };
                 s.submit_desc(None, None, desc, "array 0:3:1 -".to_string());
+            }
+            4 => {
+                use tako::resources::{ResourceDescriptorItem, ResourceDescriptorKind};
+                let next = WorkerId::new(s.world.server.worker_counter() + 1);
+                let mut cfg = worker_config(next, 8, "default", None);
+                cfg.resources = ResourceDescriptor::new(
+                    vec![
+                        ResourceDescriptorItem { name: "cpus".to_string(), kind: ResourceDescriptorKind::regular_sockets(2, 4) },
+                        ResourceDescriptorItem::range("gpus", 0, 3),
+                    ],
+                    Default::default(),
+                );
+                s.do_add_worker(cfg);
+                let ent = |name: &str, n: u32| ResourceRequestEntry { resource: name.to_string(), policy: AllocationRequest::Compact(ResourceAmount::new_units(n)) };
+                let mk = |es: Vec<ResourceRequestEntry>| ResourceRequest { n_nodes: 0, resources: es.into_iter().collect(), min_time: Default::default(), weight: Default::default() };
+                let rqv = ResourceRequestVariants::new(smallvec![mk(vec![ent("cpus", 2)]), mk(vec![ent("cpus", 1), ent("gpus", 1)])]);
+                let desc = JobTaskDescription::Array {
+                    ids: IntArray::new(vec![IntRange::new(0, 5, 1)]),
+                    entries: None,
+                    resource_rq: rqv,
+                    task_desc: task_desc(0, CrashLimit::default(), None),
+                };
+                s.submit_desc(None, None, desc, "array 0:5:1 -".to_string());
+                s.x_budget = (0, 1, 0);
+            }
+            5 => {
+                add(&mut s, 1, "ga");
+                let one = |ids: IntArray| JobTaskDescription::Array { ids, entries: None, resource_rq: cpu_rq(1, 0), task_desc: task_desc(0, CrashLimit::default(), None) };
+                s.submit_desc(None, None, one(IntArray::from_id(0)), "array 0:1:1 -".to_string());
+                s.client_action("open mf=-".to_string(), FromClientMessage::OpenJob(JobDescription { name: "o".into(), max_fails: None }));
+                s.submit_desc(Some(2), None, one(IntArray::from_id(0)), "array 0:1:1 -".to_string());
+                s.act_schedule();
+                // the worker receives A and P, A ends, the worker starts P from its backlog
+                while s.do_deliver(1, true) {}
+                let a = TaskId::new(JobId::new(1), JobTaskId::new(0));
+                s.do_end_task(1, a, EndKind::Finished);
+                s.x_budget = (0, 2, 1);
+                s.x_submit = 1;
+                s.x_submit_job = Some(2);
+                return s;
             }
             3 => {
                 add(&mut s, 1, "ga");
@@ -1927,8 +1984,10 @@ impl Sim {
             }
             XAct::SubmitMn => {
                 self.x_submit -= 1;
-                let mn = JobTaskDescription::Array { ids: IntArray::from_id(0), entries: None, resource_rq: cpu_rq(0, 2), task_desc: task_desc(1, CrashLimit::MaxCrashes(1), None) };
-                self.submit_desc(None, None, mn, "array 0:1:1 -".to_string());
+                let job = self.x_submit_job;
+                let (ids, text) = if job.is_some() { (IntArray::from_id(1), "array 1:1:1 -") } else { (IntArray::from_id(0), "array 0:1:1 -") };
+                let mn = JobTaskDescription::Array { ids, entries: None, resource_rq: cpu_rq(0, 2), task_desc: task_desc(1, CrashLimit::MaxCrashes(1), None) };
+                self.submit_desc(job, None, mn, text.to_string());
             }
             XAct::AddWorker => {
                 self.x_budget.2 -= 1;
